@@ -33,9 +33,26 @@ class StampedLog(list):
         self.times.clear()
 
 
+class Inode(bytearray):
+    """File content with an identity: open handles keep writing to it after a rename, as on a real file system."""
+
+    _next = 0
+
+    def __new__(cls, *a, **kw):
+        obj = super().__new__(cls, *a, **kw)
+        Inode._next += 1
+        obj.ino = Inode._next
+        return obj
+
+    def __deepcopy__(self, memo):
+        c = Inode(bytes(self))
+        c.ino = self.ino
+        return c
+
+
 class VFS:
     def __init__(self) -> None:
-        self.files: dict[str, bytearray] = {}
+        self.files: dict[str, bytearray] = {}  # path -> content (an Inode once the file has been opened)
         self.log: StampedLog = StampedLog()  # raw operations in order
         self._fds: dict[int, int] = {}  # fake fd -> flags passed to os.open (openers)
         self._next_fd = 100000
@@ -43,31 +60,55 @@ class VFS:
         self.opened: list[tuple] = []
 
     # -- reconstruction of crash states ---------------------------------------
+    def _inode(self, path: str) -> Inode:
+        b = self.files[path]
+        if not isinstance(b, Inode):
+            b = self.files[path] = Inode(bytes(b))
+        return b
+
+    def state(self) -> dict:
+        """{"names": {path: ino}, "data": {ino: bytes}} of the current file system."""
+        names, data = {}, {}
+        for p in list(self.files):
+            i = self._inode(p)
+            names[p] = i.ino
+            data[i.ino] = bytes(i)
+        return {"names": names, "data": data}
+
     @staticmethod
-    def apply(files: dict[str, bytes], op: tuple, upto: int | None = None) -> None:
+    def copy_state(st: dict) -> dict:
+        return {"names": dict(st["names"]), "data": dict(st["data"])}
+
+    @staticmethod
+    def files_of(st: dict) -> dict[str, bytes]:
+        return {p: st["data"].get(i, b"") for p, i in st["names"].items()}
+
+    @staticmethod
+    def apply(st: dict, op: tuple, upto: int | None = None) -> None:
+        """Apply one logged raw operation to a state (inode semantics: a handle keeps its file across renames)."""
         kind = op[0]
+        names, data = st["names"], st["data"]
         if kind == "open":
-            _, path, mode = op
-            if "w" in mode:
-                files[path] = b""
-            elif "a" in mode or "x" in mode:
-                files.setdefault(path, b"")
+            _, path, mode, ino = op
+            names[path] = ino
+            if "w" in mode or ino not in data:
+                data[ino] = b""
         elif kind == "write":
-            _, path, offset, data = op
+            _, _path, offset, chunk, ino = op
             if upto is not None:
-                data = data[:upto]
-            cur = files.get(path, b"")
+                chunk = chunk[:upto]
+            cur = data.get(ino, b"")
             if len(cur) < offset:
                 cur = cur + b"\0" * (offset - len(cur))
-            files[path] = cur[:offset] + data + cur[offset + len(data):]
+            data[ino] = cur[:offset] + chunk + cur[offset + len(chunk):]
         elif kind == "truncate":
-            _, path, size = op
-            files[path] = files.get(path, b"")[:size]
+            _, _path, size, ino = op
+            data[ino] = data.get(ino, b"")[:size]
         elif kind in ("rename", "replace"):
             _, src, dst = op
-            files[dst] = files.pop(src)
+            names[dst] = names.pop(src)
         elif kind == "remove":
-            files.pop(op[1], None)
+            names.pop(op[1], None)
         # close / fsync / read: no effect on content under the process-crash model
 
     def snapshot(self) -> dict[str, bytes]:
@@ -104,14 +145,14 @@ class VFS:
         if "x" in mode and path in self.files:
             raise FileExistsError(17, "File exists", path)
         self.opened.append((path, mode))
-        self.log.append(("open", path, mode))
+        if path not in self.files:
+            self.files[path] = Inode()
+        inode = self._inode(path)
         if truncate:
-            self.files[path] = bytearray()
-        elif path not in self.files:
-            self.files[path] = bytearray()
-        if "w" in mode and not truncate:
-            self.log[-1] = ("open", path, mode.replace("w", "r+"))  # what the kernel saw: no truncation
-        raw = RawShim(self, path, mode)
+            del inode[:]  # O_TRUNC empties the inode in place: other open handles see it
+        seen_mode = mode.replace("w", "r+") if ("w" in mode and not truncate) else mode  # what the kernel saw
+        self.log.append(("open", path, seen_mode, inode.ino))
+        raw = RawShim(self, path, mode, inode)
         if buffering == 0:
             return raw
         if writing and "+" in mode:
@@ -133,6 +174,7 @@ class VFS:
         src, dst = os.fspath(src), os.fspath(dst)
         if src not in self.files:
             raise FileNotFoundError(2, "No such file or directory", src)
+        self._inode(src)
         self.log.append(("replace", src, dst))
         self.files[dst] = self.files.pop(src)
 
@@ -148,12 +190,13 @@ class VFS:
 
 
 class RawShim(io.RawIOBase):
-    def __init__(self, vfs: VFS, path: str, mode: str) -> None:
+    def __init__(self, vfs: VFS, path: str, mode: str, inode: Inode) -> None:
         super().__init__()
         self.vfs = vfs
         self.path = path
         self.mode = mode
-        self.pos = len(vfs.files[path]) if "a" in mode else 0
+        self.inode = inode
+        self.pos = len(inode) if "a" in mode else 0
         self.name = path
 
     def readable(self) -> bool:
@@ -171,7 +214,7 @@ class RawShim(io.RawIOBase):
         elif whence == 1:
             self.pos += offset
         else:
-            self.pos = len(self.vfs.files[self.path]) + offset
+            self.pos = len(self.inode) + offset
         return self.pos
 
     def tell(self):
@@ -181,7 +224,7 @@ class RawShim(io.RawIOBase):
         exc = self.vfs.fail.pop("read", None)
         if exc is not None:
             raise exc
-        data = self.vfs.files.get(self.path, b"")[self.pos : self.pos + len(b)]
+        data = self.inode[self.pos : self.pos + len(b)]
         b[: len(data)] = data
         self.pos += len(data)
         self.vfs.log.append(("read", self.path, len(data)))
@@ -192,8 +235,8 @@ class RawShim(io.RawIOBase):
         if exc is not None:
             raise exc
         data = bytes(b)
-        self.vfs.log.append(("write", self.path, self.pos, data))
-        cur = self.vfs.files[self.path]
+        self.vfs.log.append(("write", self.path, self.pos, data, self.inode.ino))
+        cur = self.inode
         if len(cur) < self.pos:
             cur.extend(b"\0" * (self.pos - len(cur)))
         cur[self.pos : self.pos + len(data)] = data
@@ -202,14 +245,14 @@ class RawShim(io.RawIOBase):
 
     def truncate(self, size=None):
         size = self.pos if size is None else size
-        self.vfs.log.append(("truncate", self.path, size))
-        del self.vfs.files[self.path][size:]
+        self.vfs.log.append(("truncate", self.path, size, self.inode.ino))
+        del self.inode[size:]
         return size
 
     def close(self) -> None:
         if not self.closed:
             exc = self.vfs.fail.pop("close", None)
-            self.vfs.log.append(("close", self.path))
+            self.vfs.log.append(("close", self.path, self.inode.ino))
             super().close()
             if exc is not None:
                 raise exc
